@@ -899,6 +899,18 @@ def table_lines(ctx, n, kind="rt", prefix="", small=False, incons=0.08):
     for i in range(n):
         t = gen.rtable(r, consistent=(r.random() >= incons), big=(i % 40 == 0), small=small)
         out.append((t, "%s%s %s" % (prefix, kind, t.script())))
+    # column metadata the writer cannot fold, one table per way two columns can disagree on a shared
+    # name (default present in one column only — either way round —, different defaults, different
+    # types; the columns adjacent or one apart): must be refused with INCORRECT_METADATA
+    nm = (b"Name", ref.Obj(10, [b"c"]), None)
+    i1, i2 = ref.Obj(2, [b"\1\0\0\0"]), ref.Obj(2, [b"\2\0\0\0"])
+    s1 = ref.Obj(10, [b"x"])
+    for a, b in [((b"Unit", i1, i1), (b"Unit", i1, None)), ((b"Unit", i1, None), (b"Unit", i1, i2)),
+                 ((b"Unit", i1, i1), (b"Unit", i2, i2)), ((b"Unit", i1, None), (b"Unit", s1, None)),
+                 ((b"Unit", s1, s1), (b"Unit", s1, None))]:
+        for mid in ([], [[nm]]):
+            t = ref.Table([], [[nm, a]] + mid + [[nm, b]], [])
+            out.append((t, "%s%s %s" % (prefix, kind, t.script())))
     if not small:
         # elements whose packed length crosses the 2-, 3- (and, thorough, 4-) group thresholds, in a
         # string or binary column of every encoding: byte-size header, length prefixes, skip distance
